@@ -1,4 +1,4 @@
-import PeliteModel.Prim.Proto
+import PeliteModel.Driver.State
 import PeliteModel.Spec.Strings
 import PeliteModel.Model.Relocs
 /-! Driver handlers for the operation families that carry their bytes inline. -/
@@ -60,5 +60,12 @@ def relocsBuild (a : List String) : String :=
     let hyp := ps.all (fun p => 1 ≤ p.2 ∧ p.2 ≤ 15 ∧ p.1 < 4294967296)
     s!"ok {hex out} flat=[{fmtPairs (Relocs.flat out)}] ## roundtrip={if rt then 1 else 0} hyp={if hyp then 1 else 0} input=[{fmtPairs ps}]"
   | _ => "bad-op"
+
+def dispatchPure : Handler := fun _ fam a =>
+  match fam with
+  | "strings" => some (strings a)
+  | "relocs_raw" => some (relocsRaw a)
+  | "relocs_build" => some (relocsBuild a)
+  | _ => none
 
 end Pelite.Driver
